@@ -10,6 +10,8 @@ pub mod err;
 pub mod pass;
 pub mod phantom;
 pub mod with;
+#[cfg(zydeco_verif)]
+pub mod verif;
 
 pub mod prelude {
     /// Source code location.
